@@ -428,15 +428,16 @@ def PDoc.remove (o : Opts) (p : PDoc) (key : Bytes) : Outcome PDoc :=
       if p.keys.contains key then .ok { keys := eraseKey key p.keys, obj := some (eraseN key obj) }
       else .panic
 
-/-- `partialDoc.get` (does not mention `keys`; here for completeness of the `container` interface) -/
-def PDoc.get (self : Node) (p : PDoc) (key : Bytes) : Outcome Node :=
-  if key = [] then .ok self
-  else match p.obj with
-    | none => .err .expectedObject
-    | some obj =>
-      match lookupN key obj with
-      | some n => .ok n
-      | none => .err .missing
+/-- `partialDoc.get` (does not mention `keys`; here for completeness of the `container` interface).
+An empty key is an ordinary member name (RFC 6901); the `self` argument is kept for the callers
+and unused. -/
+def PDoc.get (_self : Node) (p : PDoc) (key : Bytes) : Outcome Node :=
+  match p.obj with
+  | none => .err .expectedObject
+  | some obj =>
+    match lookupN key obj with
+    | some n => .ok n
+    | none => .err .missing
 
 /-- the guards of `doMergePatch` between the two `UnmarshalJSON` calls and `mergeDocs`:
 `some r` = returned before any use of `keys` -/
